@@ -118,6 +118,7 @@ func NewTarget(targetURL string, options TargetOptions) (*Target, error) {
 	}
 
 	target.proxyHandler = target.createProxyHandler()
+	simInstrumentProxy(target.proxyHandler)
 
 	if options.BufferResponses {
 		target.proxyHandler = WithResponseBufferMiddleware(options.MaxMemoryBufferSize, options.MaxResponseBodySize, target.proxyHandler)
@@ -126,6 +127,7 @@ func NewTarget(targetURL string, options TargetOptions) (*Target, error) {
 		target.proxyHandler = WithRequestBufferMiddleware(options.MaxMemoryBufferSize, options.MaxRequestBodySize, target.proxyHandler)
 	}
 
+	simNote("target.new", target)
 	return target, nil
 }
 
@@ -166,22 +168,28 @@ func (t *Target) SendRequest(w http.ResponseWriter, req *http.Request) {
 	LoggingRequestContext(req).RequestHeaders = t.options.LogRequestHeaders
 	LoggingRequestContext(req).ResponseHeaders = t.options.LogResponseHeaders
 
+	simYield("target.send", req)
 	inflightRequest := t.getInflightRequest(req)
 	defer t.endInflightRequest(req)
 
 	tw := newTargetResponseWriter(w, inflightRequest)
 	t.proxyHandler.ServeHTTP(tw, req)
+	simYield("target.sent", req)
 }
 
 func (t *Target) Drain(timeout time.Duration) {
+	simYield("drain.begin", t)
 	originalState := t.updateState(TargetStateDraining)
 	if originalState == TargetStateDraining {
 		return
 	}
 	defer t.updateState(originalState)
+	defer simYield("drain.end", t)
+	simYield("drain.marked", t)
 
 	deadline := time.After(timeout)
 	toCancel := t.pendingRequestsToCancel()
+	simYield("drain.snapshot", t)
 
 	// Cancel any hijacked requests immediately, as they may be long-running.
 	for _, inflight := range toCancel {
@@ -199,6 +207,7 @@ WAIT_FOR_REQUESTS_TO_COMPLETE:
 		}
 	}
 
+	simYield("drain.cancel", t)
 	// Cancel any remaining requests.
 	for _, inflight := range toCancel {
 		inflight.cancel(ErrorDraining)
@@ -226,6 +235,7 @@ func (t *Target) stopHealthChecks() {
 func (t *Target) WaitUntilHealthy(timeout time.Duration) bool {
 	select {
 	case <-time.After(timeout):
+		simYield("target.waitTimeout", t)
 		t.stopHealthChecks()
 		return false
 
@@ -237,6 +247,7 @@ func (t *Target) WaitUntilHealthy(timeout time.Duration) bool {
 // HealthCheckConsumer
 
 func (t *Target) HealthCheckCompleted(success bool) {
+	simYield("health.completed", t)
 	previousState := t.state
 	newState := t.state
 
@@ -259,6 +270,7 @@ func (t *Target) HealthCheckCompleted(success bool) {
 		newState = t.state
 	})
 
+	simYield("health.updated", t)
 	if newState != previousState {
 		slog.Info("Target health updated", "target", t.Target(), "state", newState.String(), "was", previousState.String())
 
